@@ -142,7 +142,12 @@ fn judge(ctx: &mut Ctx, calls: &[Call], cuts: &[usize], plan: FaultPlan, family:
     ctx.hit(&format!("calls:{}", pred.calls.min(12)));
     // three consecutive evaluations of the same ruleset: each must look like the first
     let pred_first = pred;
-    for round in 1..=5u64 {
+    // five consecutive evaluations; one history in 40 is evaluated 60 times (whatever counts evaluations or grows with them comes round)
+    let rounds: u64 = if !toggles && fnv(hist.as_bytes()) % 40 == 0 && calls.len() < 200 { 60 } else { 5 };
+    if rounds > 5 {
+        ctx.hit("histories-evaluated-60-times");
+    }
+    for round in 1..=rounds {
         let flipped = toggles && [2, 3, 5].contains(&round);
         crate::instr::TOGGLE_CACHEABLE.store(start != flipped, std::sync::atomic::Ordering::SeqCst);
         let pred = if flipped { pred_flipped.as_ref().unwrap() } else { &pred_first };
@@ -195,7 +200,7 @@ fn judge(ctx: &mut Ctx, calls: &[Call], cuts: &[usize], plan: FaultPlan, family:
                 return;
             }
         }
-        ctx.hit(&format!("evaluation-round:{round}"));
+        ctx.hit(&format!("evaluation-round:{}", round.min(6)));
     }
     let pred = pred_first;
     ctx.sample(family, || json!({"calls": calls.iter().map(|c| format!("{}({:?})", c.func, arg_value(c, &a))).collect::<Vec<_>>(), "invocations_expected": show_want(&pred.invocations), "cache_hits": pred.cache_hits}));
@@ -325,7 +330,7 @@ fn run(ctx: &mut Ctx) {
 
 fn finish(m: &Merged, tier: Tier) -> Finish {
     let mut f = Finish {
-        rule: "a history is a sequence of user-function calls spread over 1-5 rules of one ruleset (8 instrumented functions: cacheable / non-cacheable, always-failing (with a plain error and with an error that is itself a reval::Error), None-returning; 19 look-alike arguments such as i1 / \"1\" / \"i1\" / [i1] / f1 / d1 / {a:i1} / none; nested calls) under a fault plan (fail the j-th invocation of (function, argument)). The invocation log of each of five consecutive evaluations must equal the log predicted by a sequential per-evaluation cache model, and every outcome the model's (including UserFunctionError{function, original text}). Non-trivial = histories with >= 2 calls; distinct by predicted invocation sequence".into(),
+        rule: "a history is a sequence of user-function calls spread over 1-5 rules of one ruleset (8 instrumented functions: cacheable / non-cacheable, always-failing (with a plain error and with an error that is itself a reval::Error), None-returning; 19 look-alike arguments such as i1 / \"1\" / \"i1\" / [i1] / f1 / d1 / {a:i1} / none; nested calls; a function whose cacheable() answer is flipped between evaluations; histories of up to 12 500 distinct arguments) under a fault plan (fail the j-th invocation of (function, argument)). The invocation log of each of five consecutive evaluations must equal the log predicted by a sequential per-evaluation cache model, and every outcome the model's (including UserFunctionError{function, original text}). Non-trivial = histories with >= 2 calls; distinct by predicted invocation sequence".into(),
         exhaustive: false,
         exhaustive_part: format!("all call sequences of length <= {} over 3 functions x 3 arguments, each under every fault plan with <= 2 faults out of 8 (37 plans)", tier.of(3, 4)),
         ..Default::default()
@@ -336,6 +341,7 @@ fn finish(m: &Merged, tier: Tier) -> Finish {
     f.floors.push(floor(format!("fifth consecutive evaluations checked: {}", m.c("evaluation-round:5")), m.c("evaluation-round:5") >= tier.of(20_000, 200_000)));
     f.floors.push(floor(format!("evaluations after a function's declared cacheability changed: {}", m.c("evaluations-after-the-declared-cacheability-changed")), m.c("evaluations-after-the-declared-cacheability-changed") >= tier.of(20_000, 200_000)));
     f.floors.push(floor(format!("histories with more than 4500 distinct arguments: {}", m.c("family:histories-with-thousands-of-distinct-arguments")), m.c("family:histories-with-thousands-of-distinct-arguments") >= 16));
+    f.floors.push(floor(format!("histories evaluated 60 times in a row: {}", m.c("histories-evaluated-60-times")), m.c("histories-evaluated-60-times") >= 100));
     f.extras.insert("histories_distinct".into(), json!(m.distinct_nontrivial));
     f.extras.insert("calls_per_history".into(), json!(m.prefix_map("calls:")));
     f.extras.insert("families".into(), json!(m.prefix_map("family:")));
